@@ -6,7 +6,6 @@ import (
 
 	"github.com/smarthome-go/homescript/v3/homescript/errors"
 	"github.com/smarthome-go/homescript/v3/homescript/lexer"
-	"github.com/smarthome-go/homescript/v3/homescript/lexer/util"
 )
 
 type Expression interface {
@@ -243,13 +242,20 @@ type ObjectLiteralField struct {
 }
 
 func (self ObjectLiteralField) String() string {
-	var key string
-	if !util.IsIdent(self.Key.ident) {
-		key = QuoteString(self.Key.ident)
-	} else {
-		key = self.Key.ident
+	return fmt.Sprintf("%s: %s", FieldKey(self.Key.ident), self.Expression)
+}
+
+// Renders the key of an object field (in a literal or in a type).
+// It can be written without quotes if the lexer reads it as exactly one identifier: not a keyword, no other characters.
+func FieldKey(key string) string {
+	lex := lexer.NewLexer(key, "")
+	first, err := lex.NextToken()
+	if err == nil && (first.Kind == lexer.Identifier || first.Kind == lexer.Underscore) && first.Value == key {
+		if second, err := lex.NextToken(); err == nil && second.Kind == lexer.EOF {
+			return key
+		}
 	}
-	return fmt.Sprintf("%s: %s", key, self.Expression)
+	return QuoteString(key)
 }
 
 //
